@@ -691,7 +691,7 @@ func rulePanicIndex(c *Ctx) []*Obligation {
 					// lo <= hi: constants vs len-k
 					lk, lIsK := constInt(s.lo)
 					if k, ok := p.lenMinusK(s.hi, s.base); ok && lIsK {
-						if p.lenAtLeast(s.base, s.instr) < lk+k {
+						if p.lenAtLeast(s.base, s.instr) < lk+k && !p.dbmLeq(s.lo, s.hi, s.instr) {
 							miss = append(miss, fmt.Sprintf("low %d may exceed high len-%d", lk, k))
 						}
 					} else if !(lIsK && lk == 0) && !p.c.sameValue(s.lo, s.hi) {
